@@ -1,0 +1,88 @@
+//go:build verif
+
+package object
+
+// Verification hook (build tag `verif` only): crash / fault injection on the writes SaveGlobals
+// makes to a file. Only *os.File destinations are affected and only when one of these is set:
+//
+//	VERIF_CRASH_AT=write#<k>      kill the process (SIGKILL) right after the k-th write completed
+//	VERIF_CRASH_AT=write#<k>:<n>  kill the process after only the first n bytes of the k-th write were written
+//	VERIF_FAIL_AT=write#<k>[:<n>] the k-th write stores only its first n bytes (default 0) and returns an error
+//
+// k counts the Write calls of one SaveGlobals call, from 1.
+
+import (
+	"errors"
+	"io"
+	"os"
+	"strconv"
+	"strings"
+	"syscall"
+)
+
+type verifWriter struct {
+	w    io.Writer
+	hits int
+}
+
+var errVerifInjected = errors.New("verif: injected write error")
+
+func verifSaveWriter(w io.Writer) io.Writer {
+	if _, ok := w.(*os.File); !ok {
+		return w
+	}
+	if !strings.HasPrefix(os.Getenv("VERIF_CRASH_AT"), "write#") && !strings.HasPrefix(os.Getenv("VERIF_FAIL_AT"), "write#") {
+		return w
+	}
+	return &verifWriter{w: w}
+}
+
+// verifSpec parses "write#k" or "write#k:n"; n = -1 when absent.
+func verifSpec(env string) (k, n int, ok bool) {
+	s, found := strings.CutPrefix(os.Getenv(env), "write#")
+	if !found {
+		return 0, 0, false
+	}
+	ks, ns, hasN := strings.Cut(s, ":")
+	k, err := strconv.Atoi(ks)
+	if err != nil {
+		return 0, 0, false
+	}
+	n = -1
+	if hasN {
+		if n, err = strconv.Atoi(ns); err != nil {
+			return 0, 0, false
+		}
+	}
+	return k, n, true
+}
+
+func verifDie() {
+	_ = syscall.Kill(os.Getpid(), syscall.SIGKILL)
+	select {}
+}
+
+func (v *verifWriter) Write(p []byte) (int, error) {
+	v.hits++
+	if k, n, ok := verifSpec("VERIF_FAIL_AT"); ok && k == v.hits {
+		if n < 0 {
+			n = 0
+		}
+		n = min(n, len(p))
+		if n > 0 {
+			if m, err := v.w.Write(p[:n]); err != nil {
+				return m, err
+			}
+		}
+		return n, errVerifInjected
+	}
+	if k, n, ok := verifSpec("VERIF_CRASH_AT"); ok && k == v.hits {
+		if n >= 0 {
+			_, _ = v.w.Write(p[:min(n, len(p))])
+			verifDie()
+		}
+		_, _ = v.w.Write(p)
+		verifDie()
+	}
+	return v.w.Write(p)
+}
